@@ -110,17 +110,17 @@ def run(chk):
            n_calls >= 150 and n_lane >= 40, key='scan-floor')
     # ---- R8.3 lane-generic evaluation of everything
     n_eval = 0
-    for ext in (False, True):
-        for rel in ('below', 'inside', 'above'):
+    for ext in (True,):
+        for rel in ('below', 'first', 'inside', 'last', 'above'):
             o = run_linear(lib, ext, rel)
             n_eval += 1
             chk.ob('R8.3', "Linear (ext=%s, q %s) evaluates lane-wise" % (ext, rel), o.kind in ('ok', 'err'), o.exc.where if o.exc else '', 'lanewise-linear-%s-%s' % (ext, rel), str(o.exc))
-    for ext in ('No', 'Yes', 'Periodic'):
+    for ext in ('Yes', 'Periodic'):
         for rel in ('below', 'inside', 'above'):
             o = run_spline(lib, ext, rel)
             n_eval += 1
             chk.ob('R8.3', "CubicSpline evaluation (%s, q %s) evaluates lane-wise" % (ext, rel), o.kind in ('ok', 'err'), o.exc.where if o.exc else '', 'lanewise-spline-%s-%s' % (ext, rel), str(o.exc))
-    for ext in (False, True):
+    for ext in (True,):
         o = run_bilinear(lib, ext, 'inside', 'above')
         n_eval += 1
         chk.ob('R8.3', "Bilinear (ext=%s) evaluates lane-wise" % ext, o.kind in ('ok', 'err'), o.exc.where if o.exc else '', 'lanewise-bilinear-%s' % ext, str(o.exc))
@@ -137,7 +137,7 @@ def run(chk):
         m, out, ex, _ = S.run_calc(lib, bc)
         n_eval += 1
         chk.ob('R8.3', "calc_coefficients(%s) evaluates lane-wise" % bc, ex is None, ex.where if ex else '', 'lanewise-calc-' + bc, str(ex))
-    chk.floor('R8.3', 'lane-generic evaluations', n_eval, 6 + 9 + 2 + 52 + 5)
+    chk.floor('R8.3', 'lane-generic evaluations', n_eval, 5 + 6 + 1 + 52 + 5)
     S.check_thomas(chk, lib, 'R8.3')
     S.check_dispatcher(chk, lib, 'R8.2')
     chk.sample({"scope": scope[:8], "lane-wise surface": ["Zip::for_each", "Zip::map_assign_into", "index_axis(_mut)(Axis(0), i)", "assign", "fill", "elementwise + - * /", "slice_axis(Axis(0))", "to_owned"]})
